@@ -353,6 +353,32 @@ def stale_arith_uf_arg(case, upto):
     return bool((live_ufarg & popped_arith) - live_arith)
 
 
+def popped_numeric_uf_app(case, upto):
+    """Cause feature: an assertion of a popped level applied an uninterpreted function to numeric arguments. The application
+    stays in the E-graph (terms are never removed) and in the function table of the model, but the sharing of its arguments
+    between the E-graph and the LA solver is no longer maintained for it."""
+    h = case['hist']
+    num_ufs = {d['name'] for d in h['decls'] if d['k'] == 'declare-fun' and d['args'] and any(a in ('Int', 'Real') for a in d['args'])}
+    if not num_ufs:
+        return False
+    levels = [[]]
+    for c in h['commands'][:upto + 1]:
+        if c.get('fault'):
+            continue
+        if c['k'] == 'push':
+            levels += [[] for _ in range(c['n'])]
+        elif c['k'] == 'pop' and c['n'] < len(levels):
+            gone = [t for lv in levels[len(levels) - c['n']:] for t in lv]
+            del levels[len(levels) - c['n']:]
+            for t in gone:
+                toks = t.replace('(', ' ( ').replace(')', ' ) ').split()
+                if any(toks[j] == '(' and toks[j + 1] in num_ufs for j in range(len(toks) - 1)):
+                    return True
+        elif c['k'] == 'assert':
+            levels[-1].append(c['ref'])
+    return False
+
+
 class C03(ArtifactCheck):
     pid = 'C03'
     profiles = gen.MODEL_PROFILES
@@ -385,6 +411,7 @@ class C03(ArtifactCheck):
                 # the printed model itself is malformed in a known way: an abstract value of sort Bool, (as @5 Bool), in the
                 # table of an uninterpreted function with a Boolean argument
                 'stale_arith_uf_arg': stale_arith_uf_arg(case, v['index']),
+                'popped_numeric_uf_app': popped_numeric_uf_app(case, v['index']),
                 'bool_abstract_value': any(o and re.search(r'\(as @\w+ Bool\)', o) for o in getattr(self, '_outs', []) or []),
                 # an assertion level was pushed at some point (a popped level still leaves its activation variable in the SAT solver)
                 'pushed': any(c['k'] == 'push' for c in case['hist']['commands'])}
